@@ -382,6 +382,12 @@ def _body(ck: Checker):
     wr = RepoFunc(it, dm, dm.func('write_binary_dict'))
     rd = RepoFunc(it, dm, dm.func('read_binary_dict'))
     samples = [{}, {'k': b'v'}, {'0110': b'\x00\x01\xff', '': b'', 'key2': b'x' * 300}, {'ключ': b'ab', 'kéy': b'\x00'}, {'a' * 200: b''}]
+    # lengths around the middle and at the top of what the length fields can hold ("for all values within their size limits")
+    for cname, mk in (('DICT_KEY_BYTE_SIZE', lambda L: {'a' * L: b'v'}), ('DICT_VALUE_BYTE_SIZE', lambda L: {'k': b'x' * L})):
+        W = it.global_value(dm, cname)
+        if isinstance(W, int) and 1 <= W <= 3:
+            for L in ((1 << (8 * W - 1)) - 1, 1 << (8 * W - 1), (1 << (8 * W)) - 1):
+                samples.append(mk(L))
     probs = []
     blobs = []
     for s in samples:
@@ -392,9 +398,9 @@ def _body(ck: Checker):
             blobs.append(blob)
             back = rd(HostStream(blob))
             if back != s:
-                probs.append(f'{list(s)[:2]} read back as {list(back)[:2]}')
+                probs.append(f'{[k_[:12] + ("..." if len(k_) > 12 else "") for k_ in list(s)[:2]]} (key/value lengths {[(len(k_.encode()), len(v_)) for k_, v_ in list(s.items())[:2]]}) read back differently')
         except InterpRaise as e:
-            probs.append(f'{list(s)[:2]}: raises {e.exc_name}')
+            probs.append(f'a dictionary with key/value lengths {[(len(k_.encode()), len(v_)) for k_, v_ in list(s.items())[:2]]}: raises {e.exc_name}')
     ck.check(not probs, 'C16.MIRROR', dm, dm.func('write_binary_dict'), 'binary dict writer and reader are mutual inverses (incl. empty and non-ASCII keys)', '; '.join(probs[:3]), construct='write_binary_dict / read_binary_dict round trip')
     probs = []
     for blob in blobs:
